@@ -12,7 +12,7 @@ RULE = ("Alignments come from two sources: kalign's own result on a generated se
         "equals the alignment that was written. Non-trivial = >= 2 rows and >= 1 gap; classes width%60==0, name length>60, "
         "chain>=2 and each ordered pair.")
 ASSUMPTIONS = ["gap-free alignments are compared after the first hop only (a gap-free file is by design not recognised as aligned)"]
-BUDGET = {"quick": dict(examples=300, workers=12, seconds=75), "thorough": dict(examples=1300, workers=16, seconds=600)}
+BUDGET = {"quick": dict(examples=220, workers=12, seconds=70), "thorough": dict(examples=1300, workers=16, seconds=600)}
 
 FMTS = ["fasta", "msf", "clu"]
 
@@ -111,3 +111,43 @@ def check(case):
     nt = len(tr) >= 2 and not gapfree
     return engine.ok(nt, cl, {"source": src["source"], "names": tn[:2], "rows": [r[:70] for r in tr[:2]], "width": width,
                               "chain": chain})
+
+
+# ------------------------------------------------------------------ enumerated size sweep (exact buffer-growth edges)
+
+def _sweep_items(tier):
+    rows = list(range(2, 401)) + list(range(500, 525)) + list(range(1000, 1040)) if tier == "quick" else list(range(2, 2201))
+    return [(n, 2, 2) for n in rows] + [(3, w, 2) for w in range(1, 261)] + [(3, 70, nl) for nl in range(1, 201)] + \
+           [(n, 61, 2) for n in (16, 17, 18, 340, 341, 342, 510, 511, 512, 513)]
+
+
+def _sweep_case(item):
+    n, w, nl = item
+    rows = []
+    for i in range(n):
+        r = ["ACGT"[(i + c) % 4] for c in range(w)]
+        if w > 1:
+            r[i % w] = "-"
+        rows.append("".join(r))
+    if w == 1:
+        rows = ["A-" if i % 2 else "-A" for i in range(n)]
+    names = [("s%d_" % i + "n" * nl)[:max(nl, len("s%d" % i))] for i in range(n)]
+    return {"src": {"names": names, "rows": rows, "source": "synthetic"}, "chain": ["fasta", "msf", "clu"][(n + w + nl) % 3:] + ["clu"]}
+
+
+def extra(tier, seed, stats):
+    from concurrent.futures import ThreadPoolExecutor
+    out = []
+    items = _sweep_items(tier)
+    cases_ = [_sweep_case(it) for it in items]
+    with ThreadPoolExecutor(max_workers=12) as ex:
+        res = list(ex.map(check, cases_))
+    for it, c, r in zip(items, cases_, res):
+        stats.evaluations += 1
+        stats.classes["sweep_items"] += 1
+        if r["status"] == "violation":
+            out.append({"case": c, "detail": dict(r["detail"], sweep_item=list(it)), "kind": r.get("kind")})
+        elif r.get("nontrivial"):
+            stats.nontrivial.add("sweep:%d:%d:%d" % it)
+    stats.extra["sweep"] = "every row count %s (width 2), every width 1..260 (3 rows), every name length 1..200 (exhaustive over those ranges)" % ("2..400, 500..524, 1000..1039" if tier == "quick" else "2..2200")
+    return out
